@@ -74,9 +74,6 @@ impl Stats {
 		(pre, op, arg, life).hash(&mut h);
 		self.tuples.insert(h.finish());
 	}
-	pub fn get(&self, k: &str) -> u64 {
-		self.c.get(k).copied().unwrap_or(0)
-	}
 }
 
 pub enum Outcome {
@@ -91,7 +88,6 @@ pub enum Outcome {
 pub struct Exec {
 	pub prop: Prop,
 	pub owner: Option<Owner>,
-	pub twin: Option<Owner>,
 	pub step_idx: usize,
 	/// the history changed the text through a handle in a burst of >= 2 operations
 	pub nontrivial: bool,
@@ -491,7 +487,6 @@ impl Exec {
 		Some(Exec {
 			prop,
 			owner: Some(owner),
-			twin: None,
 			step_idx: 0,
 			nontrivial: false,
 			mutated: false,
@@ -529,48 +524,9 @@ impl Exec {
 		}
 	}
 
-	/// Applies the step to the twin (if any) and compares; C04 only.
-	fn twin_step(&mut self, step: &Step, idx: usize) -> Option<Outcome> {
-		let tw = self.twin.take()?;
-		let mut t = Exec {
-			prop: Prop::C04,
-			owner: Some(tw),
-			twin: None,
-			step_idx: idx,
-			nontrivial: false,
-			mutated: false,
-		};
-		let mut scratch = Stats::default();
-		let r = t.step_inner(step, &mut scratch, true);
-		match r {
-			Outcome::Ok => {}
-			_ => return None, // the primary copy reports whatever there is to report
-		}
-		let same = t.owner.as_ref().map(|o| o.bytes()) == self.owner.as_ref().map(|o| o.bytes());
-		if !same {
-			return Some(violation(
-				Prop::C04,
-				"twin_divergence",
-				idx,
-				None,
-				&step.name(),
-				"a clone of the buffer given the same history holds a different text".into(),
-				None,
-				t.owner.as_ref().map(|o| o.bytes()),
-				self.owner.as_ref().map(|o| o.bytes()),
-				String::new(),
-				String::new(),
-			));
-		}
-		self.twin = t.owner;
-		None
-	}
-
 	pub fn step(&mut self, step: &Step, stats: &mut Stats) -> Outcome {
-		let idx = self.step_idx;
 		self.step_idx += 1;
-		let r = self.step_inner(step, stats, false);
-		r
+		self.step_inner(step, stats, false)
 	}
 
 	fn step_inner(&mut self, step: &Step, stats: &mut Stats, quiet: bool) -> Outcome {
@@ -904,7 +860,7 @@ impl Exec {
 
 		// ---- C10 ----
 		// oracle 3 + 4 on run B, operation by operation
-		let mut pm = PathModel::from_text(split_for(kind, &pre).path(&pre));
+		let mut pm;
 		for i in 0..ops.len() {
 			let before = b_before(i);
 			let after = b_after(i);
